@@ -271,7 +271,10 @@ theorem wstep_doLocalWrite (fuel : Nat) (ih : WMachine Q fuel) :
   obtain ⟨_, _, _, _, _, _, i7, i8, _⟩ := ih
   simp only [doLocalWrite]
   split
-  · exact i8 _ _ h
+  · apply i8
+    rcases discDone_cases w which with ⟨e, _⟩ | ⟨e, _⟩ <;> rw [e]
+    · exact h
+    · exact hq.handleDisconnect _ h
   · split
     · rename_i w' heq; exact hq.suspend _ _ (hq.ioWrite' heq h)
     · rename_i w' n heq; exact i7 _ _ _ (hq.ioWrite' heq h)
